@@ -128,7 +128,9 @@ def signature(script, mism):
 
 
 def run(ctx):
-    vlib.build(ctx, PROP_FILES, variants=("plain",))
+    import os
+    prop_files = [f for f in PROP_FILES if os.path.exists(os.path.join(vlib.COQ, f))]
+    vlib.build(ctx, prop_files, variants=("plain",))
     n = 160 if ctx.tier == "quick" else 1200
     cases = [gen_case(ctx.rng, ctx.tier) for _ in range(n)]
     scripts = [c[0] for c in cases]
